@@ -201,7 +201,7 @@ CHECKS["C03"] = {
          "cover": [], "max_steps": 400000000},
         {"name": "commands", "pkg": "internal/state", "pkgname": "state", "entry": "VerifC03Commands",
          "files": ["zz_verif_c03.go", "zz_verif_fixture.go", "zz_verif_world.go"], "with": ["verifdb"], "gen_stubs": [TX_STUB],
-         "params": {"quick": grid(nA=[1, 2], peer=[0], lean=[0]) + grid(nA=[1], peer=[1], lean=[0]) + grid(nA=[2], peer=[1], lean=[1]), "thorough": grid(nA=[1, 2, 3], peer=[0], lean=[0]) + grid(nA=[1, 2], peer=[1], lean=[0])},
+         "params": {"quick": grid(nA=[1, 2], peer=[0], lean=[0]) + grid(nA=[1], peer=[1], lean=[0]) + grid(nA=[2], peer=[1], lean=[1]) + grid(nA=[1, 2], peer=[0], lean=[0], stale=[1]), "thorough": grid(nA=[1, 2, 3], peer=[0], lean=[0]) + grid(nA=[1, 2], peer=[1], lean=[0])},
          "cover": ["command-ok"]},
     ],
     "stubs": ["internal/verifdb relational model behind db.Client (byte-exact flag values, AUTOINCREMENT UIDs, UNIQUE constraints)", "state.Connector -> succeeds, no remote updates", "utils.QueryWrapper -> recorder that accepts every statement; row iteration reports no rows"],
